@@ -14,9 +14,10 @@ theorem upsert_spec (p : Int × Int) : ∀ (acc : Pts Int), Asc acc →
     Asc (upsert p acc) ∧ (∀ q ∈ upsert p acc, q = p ∨ q ∈ acc) ∧
     ∀ t, lookup (upsert p acc) t = if p.1 = t then some p.2 else lookup acc t
   | [], _ => by
-    simp only [upsert]
-    refine ⟨by simp [Asc], by simp, ?_⟩
-    intro t; rw [lookup_cons]; simp
+    have e : upsert p ([] : Pts Int) = [p] := rfl
+    rw [e]
+    exact ⟨List.pairwise_singleton _ _, fun q hq => Or.inl (by simpa using hq),
+      fun t => by rw [lookup_cons]⟩
   | q :: qs, h => by
     have hc := asc_cons.mp h
     unfold upsert
@@ -152,6 +153,10 @@ theorem getC_nil_of_gt {m : List (Key × Pts Int)} {k : Key} (h : ∀ e ∈ m, k
   have := h e hm
   rw [hk, keyLt_irrefl] at this; cases this
 
+theorem getC_cons (e : Key × Pts Int) (m : List (Key × Pts Int)) (k : Key) :
+    getC (e :: m) k = (if e.1 = k then e.2 else []) ++ getC m k := by
+  by_cases h : e.1 = k <;> simp [getC, List.filter_cons, h]
+
 theorem insertKey_spec (k : Key) (vs : Pts Int) :
     ∀ (m : List (Key × Pts Int)), KeysAscC m →
       KeysAscC (insertKey k vs m) ∧
@@ -198,9 +203,8 @@ theorem insertKey_spec (k : Key) (vs : Pts Int) :
           by_cases h : k = k'
           · subst h
             have := getC_nil_of_gt hgt
-            rw [this]
-            simp only [getC, List.filter_cons, decide_true, if_true, List.flatMap_cons] at this ⊢
-            simp [this]
+            rw [getC_cons, this]
+            simp
           · have h' : ¬ k' = k := fun hh => h hh.symm
             simp [getC, List.filter_cons, h, h']
       · rw [if_neg h2]
@@ -372,11 +376,13 @@ theorem modelSnap_ok (ops : List Op) (size : Nat) (files : List OutFile)
       simp only [List.flatMap_cons, List.flatMap_nil, List.append_nil] at hg ⊢
       obtain ⟨d1, d2⟩ := dedupValues_spec e.2
       obtain ⟨k1, k2⟩ := chunksOf_spec sz hs ((dedupValues e.2).length + 1) (dedupValues e.2) (by omega)
+      rw [hg] at d1 d2 k1 k2
       refine ⟨?_, ?_, ?_⟩
-      · simp only [List.nil_append, entryBlocks, k1]; exact d1
+      · simp only [List.nil_append, entryBlocks, hg, k1]; exact d1
       · intro t
-        simp only [List.nil_append, entryBlocks, k1, d2 t, hg]
+        simp only [List.nil_append, entryBlocks, hg, k1, d2 t]
       · intro o ho
+        simp only [entryBlocks, hg] at ho
         obtain ⟨f1, f2, f3⟩ := k2 o ho
         exact ⟨f1, Or.inl ⟨f2, f3⟩⟩
   · intro k t
